@@ -133,6 +133,8 @@ def r_explode(s: str, delim: str, position: int, limit: int) -> str:
 def r_pad(s: str, n: int, pad: str, left: bool) -> str:
     """padleft / padright: pad s to n characters with (repetitions of) pad, truncated to fit;
     s itself is neither trimmed nor truncated; an empty pad pads nothing."""
+    if n > 500:  # "padleft/padright: the length is limited to 500" (Help:Magic words)
+        n = 500
     need = n - len(s)
     if need <= 0 or pad == "":
         return s
